@@ -68,13 +68,14 @@ func (iso *ISO3k3y) Read(b []byte) (int, error) {
 }
 
 func (iso *ISO3k3y) ReadAt(b []byte, off int64) (int, error) {
+	// io.ReaderAt returns the bytes read before the end of file together with io.EOF: they must be masked too
 	read, err := iso.privateFile.ReadAt(b, off)
-	if err != nil || read == 0 {
+	if read == 0 || (err != nil && !errors.Is(err, io.EOF)) {
 		return read, err
 	}
 
 	iso.clear3k3yData(sizeBytes(off), b[:read])
-	return read, nil
+	return read, err
 }
 
 func (*ISO3k3y) clear3k3yData(start sizeBytes, data []byte) {
